@@ -369,17 +369,45 @@ def attempt_recipe(bs: Any) -> str:
         return type(e).__name__
 
 
+def json_eq(a: Any, b: Any) -> bool:
+    """Dataclass == as the documentation describes it, decided field by field on the JSON form (independent of the
+    project's own __eq__ / __hash__): same class, every field equal, numbers compared by value across int / Fraction /
+    float, everything else (texts, units, flags, indices) exactly."""
+    if isinstance(a, dict) and isinstance(b, dict):
+        if set(a) & {"int", "frac", "float"} and set(b) & {"int", "frac", "float"}:
+            return c.num_unjson(a) == c.num_unjson(b)
+        return set(a) == set(b) and all(json_eq(a[k], b[k]) for k in a)
+    if isinstance(a, list) and isinstance(b, list):
+        return len(a) == len(b) and all(json_eq(x, y) for x, y in zip(a, b))
+    if isinstance(a, bool) or isinstance(b, bool):
+        return isinstance(a, bool) and isinstance(b, bool) and a == b
+    return type(a) is type(b) and a == b
+
+
+def json_iter_all(j: Any) -> Iterator[Any]:
+    """Every node (JSON form) inside j, entering sub recipe bodies and the sub recipes embedded in references."""
+    stack = [j]
+    while stack:
+        n = stack.pop()
+        yield n
+        if "S" in n:
+            stack.extend(n["S"][1])
+        elif "R" in n:
+            stack.append(n["R"][0])
+        elif "SR" in n:
+            stack.append(n["SR"][0])
+
+
 def expected_recipe(bs: Any) -> str:
-    """Refused iff some reference anywhere does not embed a value == to an earlier root sub recipe."""
-    import recipe_grid.recipe as R
-    blocks = [[ser.node_unjson(t) for t in b] for b in bs]
+    """Refused iff some reference anywhere does not embed a value equal (field by field) to a sub recipe that is the
+    ROOT of an earlier tree of the same block or of a tree of an earlier block."""
     earlier: List[Any] = []
-    for trees in blocks:
+    for trees in bs:
         for t in trees:
-            for n in iter_all(t):
-                if isinstance(n, R.Reference) and not any(n.sub_recipe == e for e in earlier):
+            for n in json_iter_all(t):
+                if "R" in n and not any(json_eq(n["R"][0], e) for e in earlier):
                     return "ReferenceToInvalidSubRecipeError"
-            if isinstance(t, R.SubRecipe):
+            if "SR" in t:
                 earlier.append(t)
     return "ok"
 
@@ -540,7 +568,8 @@ def gen_recipe_cases(rng: random.Random, n: int) -> List[Case]:
         user = {"S": [g_svs(rng), [g_tree(rng, 2, [a, b]), {"R": [b, 0, g_amount(rng)]}]]}
         wrapped = {"SR": [{"S": [g_svs(rng), [{"R": [a, 0, g_amount(rng)]}]]}, [["wrapped"]], True]}
         scen = rng.choice(["valid", "valid-split", "use-first", "def-later-block", "missing-root", "nested-not-root",
-                           "bumped", "retyped", "in-body", "in-embedded", "shuffle", "valid-three-blocks"])
+                           "bumped", "retyped", "in-body", "in-embedded", "shuffle", "valid-three-blocks",
+                           "flag-flipped", "flag-flipped", "nested-earlier-block", "nested-earlier-block"])
         if scen == "valid":
             bs = [[a, b, user, wrapped]]
         elif scen == "valid-split":
@@ -557,6 +586,28 @@ def gen_recipe_cases(rng: random.Random, n: int) -> List[Case]:
             # a occurs only nested inside a step of an earlier tree (single output only: it must be a legal child)
             a1 = g_sub(rng, 1, [])
             bs = [[{"S": [g_svs(rng), [a1, g_ing(rng)]]}, {"S": [g_svs(rng), [{"R": [a1, 0, g_amount(rng)]}]]}]]
+        elif scen == "flag-flipped":
+            # the references embed a copy of the root that differs ONLY in show_output_names (either direction);
+            # same block, the following block, or two blocks later
+            import copy
+            a1 = g_sub(rng, rng.choice([1, 1, 2]), [])
+            a2 = copy.deepcopy(a1)
+            a2["SR"][2] = not a1["SR"][2]
+            use = {"S": [g_svs(rng), [{"R": [a2, rng.randrange(len(a2["SR"][1])), g_amount(rng)]}, g_ing(rng)]]}
+            if rng.random() < 0.3:
+                use = {"SR": [use, [["flagged use"]], True]}
+            bs = rng.choice([[[a1, use]], [[a1], [use]], [[a1], [g_ing(rng)], [use]], [[a1, g_ing(rng)], [g_tree(rng, 1, [a1])], [use]]])
+        elif scen == "nested-earlier-block":
+            # a single-output sub recipe nested (depth 1-2) inside a step of an EARLIER block is no legal target
+            a1 = g_sub(rng, 1, [])
+            inner = {"S": [g_svs(rng), [a1, g_ing(rng)]]}
+            if rng.random() < 0.5:
+                inner = {"S": [g_svs(rng), [g_ing(rng), inner]]}
+            if rng.random() < 0.3:
+                inner = {"SR": [inner, [["holder"]], True]}          # nested inside a root sub recipe's body
+            use = {"S": [g_svs(rng), [{"R": [a1, 0, g_amount(rng)]}]]}
+            bs = rng.choice([[[inner], [use]], [[inner], [g_ing(rng)], [use]], [[g_ing(rng), inner], [use, g_ing(rng)]],
+                             [[inner], [g_sub(rng, 2, [])], [use]]])
         elif scen == "bumped":
             a2 = bump(a)
             bs = [[a2 if a2 is not None else a, b, user, wrapped]]
